@@ -28,8 +28,9 @@ OPS = [
     "parse_object_ok", "parse_object_fail", "parse_string", "parse_env", "get_defaults", "dump", "validate", "instantiate", "sub_print_config_then_invalid",
     "print_config_then_help", "sub_print_config_then_help",
     "parse_args_class", "parse_string_fail",
+    "nested_opt_k", "nested_opt_r",
 ]
-QUICK_OPS = OPS[:18]
+QUICK_OPS = OPS[:18] + OPS[20:]
 
 _DEFAULT_DIR = [None]
 
@@ -39,7 +40,7 @@ def _factory():
 
     from jsonargparse import ActionConfigFile, ArgumentParser
 
-    from ..fixtures import Base
+    from ..fixtures import Base, OptHolder
 
     if _DEFAULT_DIR[0] is None:
         d = os.path.join(tempfile.gettempdir(), "vf_c09_defaults2")  # fixed location: it shows up in --help output
@@ -56,6 +57,7 @@ def _factory():
     p.add_argument("--m", type=Base, default=None)
     p.add_argument("--tags", type=List[str], default=["base"])
     p.add_argument("--opt", type=Optional[float], default=None)
+    p.add_class_arguments(OptHolder, "grp")
     p.link_arguments("a", "b")
     fit = ArgumentParser(exit_on_error=False)
     fit.add_argument("--cfg", action=ActionConfigFile)
@@ -133,6 +135,10 @@ def _run(parser, op, ints):
                 r = parser.validate(_const_cfg())
             elif op == "instantiate":
                 r = parser.instantiate_classes(_const_cfg())
+            elif op == "nested_opt_k":  # one member of an Optional[dataclass] value given by its dotted option ...
+                r = parser.parse_args(["--grp.q.k=9", "fit"])
+            elif op == "nested_opt_r":  # ... and another member in another parse: the first must not be remembered
+                r = parser.parse_args(["--grp.q.r=0.5", "fit"])
             elif op == "parse_args_class":
                 r = parser.parse_args(["--m=Sub1", "--m.w=8", "test", "--y=[3]"])
             else:
